@@ -1087,7 +1087,14 @@ class Interp:
             raise InterpRaise("AttributeError", "'list' object has no attribute '%s'" % k, n)
         if isinstance(o, str):
             if k == "format":
-                return lambda *a, **kw: "<str>"
+                def _fmt(*a, **kw):
+                    if all(isinstance(x, (str, int)) and not (isinstance(x, str) and x.startswith("<")) for x in list(a) + list(kw.values())):
+                        try:
+                            return o.format(*a, **kw)
+                        except (ValueError, IndexError, KeyError):
+                            return "<str>"
+                    return "<str>"
+                return _fmt
             if k == "join":
                 return lambda it: "<str>"
             try:
